@@ -5,6 +5,8 @@ mod corpus;
 mod gen;
 mod rng;
 mod p15;
+mod hproj;
+mod p02;
 mod p04;
 mod p06;
 mod p07;
@@ -127,6 +129,7 @@ fn main() {
         "C07" => p07::run(&args),
         "C06" => p06::run(&args),
         "C04" => p04::run(&args),
+        "C02" => p02::run(&args),
         "C17" => p17::run(&args),
         "C20" => p20::run(&args),
         "C08" => p08::run08(&args),
